@@ -1031,8 +1031,13 @@ class sptensor:
                 assert False, "Must be tensors of the same shape"
 
             C = sptensor.from_aggregator(
-                np.vstack((self.subs, other.subs)),
-                np.vstack((self.vals, other.vals)),
+                np.vstack(
+                    (
+                        self.subs.reshape(-1, self.ndims),
+                        other.subs.reshape(-1, self.ndims),
+                    )
+                ),
+                np.ones((self.nnz + other.nnz, 1)),
                 self.shape,
                 lambda x: len(x) == 2,
             )
@@ -1041,9 +1046,7 @@ class sptensor:
             return C
 
         if isinstance(other, ttb.tensor):
-            BB = sptensor(self.subs, other[self.subs][:, None], self.shape)
-            C = self.logical_and(BB)
-            return C
+            return self.logical_and(other.to_sptensor())
 
         # Otherwise
         assert False, "The arguments must be two sptensors or an sptensor and a scalar."
@@ -1135,8 +1138,13 @@ class sptensor:
 
         if isinstance(other, ttb.sptensor):
             C = sptensor.from_aggregator(
-                np.vstack((self.subs, other.subs)),
-                np.ones((self.subs.shape[0] + other.subs.shape[0], 1)),
+                np.vstack(
+                    (
+                        self.subs.reshape(-1, self.ndims),
+                        other.subs.reshape(-1, self.ndims),
+                    )
+                ),
+                np.ones((self.nnz + other.nnz, 1)),
                 self.shape,
                 lambda x: len(x) >= 1,
             )
@@ -1205,7 +1213,12 @@ class sptensor:
             if self.shape != other.shape:
                 assert False, "Logical XOR requires tensors of the same size"
 
-            subs = np.vstack((self.subs, other.subs))
+            subs = np.vstack(
+                (
+                    self.subs.reshape(-1, self.ndims),
+                    other.subs.reshape(-1, self.ndims),
+                )
+            )
             result = ttb.sptensor.from_aggregator(
                 subs, np.ones((len(subs), 1)), self.shape, lambda x: len(x) == 1
             )
